@@ -361,8 +361,8 @@ var c11Controls = []Control{
 	{Name: "followRsrv-drop-error", Rule: "R11a", WantKey: "followRsrv#recoverError", File: "syntax/parser.go",
 		Mutate: ctlReplace("Parser.followRsrv", "p.followErr(lpos, left, val)", "_ = left", 0)},
 	{Name: "followStmts-recover-before-empty-list", Rule: "R11a", WantKey: "followStmts#recoverError", File: "syntax/parser.go",
-		Mutate: ctlReplaceAnywhere("\t\tif p.lang.in(LangZsh | LangMirBSDKorn) {\n\t\t\treturn nil, nil // allow an empty list\n\t\t}\n\t\tif p.recoverError() {\n\t\t\treturn []*Stmt{{Position: recoveredPos}}, nil\n\t\t}\n",
-			"\t\tif p.recoverError() {\n\t\t\treturn []*Stmt{{Position: recoveredPos}}, nil\n\t\t}\n\t\tif p.lang.in(LangZsh | LangMirBSDKorn) {\n\t\t\treturn nil, nil // allow an empty list\n\t\t}\n")},
+		Mutate: ctlReplaceAnywhere("\t\tif p.lang.in(LangZsh | LangMirBSDKorn) {\n\t\t\treturn nil, last // allow an empty list, which may still hold comments\n\t\t}\n\t\tif p.recoverError() {\n\t\t\treturn []*Stmt{{Position: recoveredPos}}, last\n\t\t}\n",
+			"\t\tif p.recoverError() {\n\t\t\treturn []*Stmt{{Position: recoveredPos}}, last\n\t\t}\n\t\tif p.lang.in(LangZsh | LangMirBSDKorn) {\n\t\t\treturn nil, last // allow an empty list, which may still hold comments\n\t\t}\n")},
 	{Name: "dqToken-bash-only", Rule: "R11b", WantKey: "dqToken#in(LangBash)", File: "syntax/lexer.go",
 		Mutate: ctlReplace("Parser.dqToken", "p.lang.in(langBashLike)", "p.lang.in(LangBash)", 0)},
 	{Name: "checkLang-bash-only", Rule: "R11b", WantKey: "checkLang(LangBash", File: "syntax/parser.go",
